@@ -1,5 +1,6 @@
 // polyvec/<lvl>.rs and packing/<set>.rs on the line protocol.
 use crate::codec::*;
+#[allow(unused_imports)]
 use crystals_dilithium::poly::Poly;
 
 fn ok(s: String) -> Option<String> {
@@ -22,27 +23,29 @@ macro_rules! vec_lvl {
                 let v = polys(s)?; if v.len() != L { return None; }
                 let mut r = Polyvecl::default(); for i in 0..L { r.vec[i] = v[i]; } Some(r)
             }
+            fn dk() -> Polyveck { let mut r = Polyveck::default(); for p in r.vec.iter_mut() { *p = dirty_poly(); } r }
+            fn dl() -> Polyvecl { let mut r = Polyvecl::default(); for p in r.vec.iter_mut() { *p = dirty_poly(); } r }
             fn mat(s: &str) -> Option<Vec<Polyvecl>> {
                 let rows: Option<Vec<Polyvecl>> = s.split('|').map(vl).collect();
                 let rows = rows?; if rows.len() != K { return None; } Some(rows)
             }
             match (f, a.len()) {
                 ("matrix_expand", 1) => {
-                    let rho = unhex(a[0])?; let mut m = [Polyvecl::default(); K];
+                    let rho = unhex(a[0])?; let mut m = [dl(); K];
                     pv::matrix_expand(&mut m, &rho);
                     ok(m.iter().map(|r| fmt_polys(&r.vec)).collect::<Vec<_>>().join("|"))
                 }
                 ("l_pointwise_acc_montgomery", 2) => {
-                    let u = vl(a[0])?; let v = vl(a[1])?; let mut w = Poly::default();
+                    let u = vl(a[0])?; let v = vl(a[1])?; let mut w = dirty_poly();
                     pv::l_pointwise_acc_montgomery(&mut w, &u, &v); ok(fmt_poly(&w))
                 }
                 ("matrix_pointwise_montgomery", 2) => {
-                    let m = mat(a[0])?; let v = vl(a[1])?; let mut t = Polyveck::default();
+                    let m = mat(a[0])?; let v = vl(a[1])?; let mut t = dk();
                     pv::matrix_pointwise_montgomery(&mut t, &m, &v); ok(fmt_polys(&t.vec))
                 }
-                ("l_uniform_eta", 2) => { let seed = unhex(a[0])?; let n: u16 = a[1].parse().ok()?; let mut v = Polyvecl::default(); pv::l_uniform_eta(&mut v, &seed, n); ok(fmt_polys(&v.vec)) }
-                ("k_uniform_eta", 2) => { let seed = unhex(a[0])?; let n: u16 = a[1].parse().ok()?; let mut v = Polyveck::default(); pv::k_uniform_eta(&mut v, &seed, n); ok(fmt_polys(&v.vec)) }
-                ("l_uniform_gamma1", 2) => { let seed = unhex(a[0])?; let n: u16 = a[1].parse().ok()?; let mut v = Polyvecl::default(); pv::l_uniform_gamma1(&mut v, &seed, n); ok(fmt_polys(&v.vec)) }
+                ("l_uniform_eta", 2) => { let seed = unhex(a[0])?; let n: u16 = a[1].parse().ok()?; let mut v = dl(); pv::l_uniform_eta(&mut v, &seed, n); ok(fmt_polys(&v.vec)) }
+                ("k_uniform_eta", 2) => { let seed = unhex(a[0])?; let n: u16 = a[1].parse().ok()?; let mut v = dk(); pv::k_uniform_eta(&mut v, &seed, n); ok(fmt_polys(&v.vec)) }
+                ("l_uniform_gamma1", 2) => { let seed = unhex(a[0])?; let n: u16 = a[1].parse().ok()?; let mut v = dl(); pv::l_uniform_gamma1(&mut v, &seed, n); ok(fmt_polys(&v.vec)) }
                 ("l_reduce", 1) => { let mut v = vl(a[0])?; pv::l_reduce(&mut v); ok(fmt_polys(&v.vec)) }
                 ("k_reduce", 1) => { let mut v = vk(a[0])?; pv::k_reduce(&mut v); ok(fmt_polys(&v.vec)) }
                 ("k_caddq", 1) => { let mut v = vk(a[0])?; pv::k_caddq(&mut v); ok(fmt_polys(&v.vec)) }
@@ -54,13 +57,13 @@ macro_rules! vec_lvl {
                 ("k_ntt", 1) => { let mut v = vk(a[0])?; pv::k_ntt(&mut v); ok(fmt_polys(&v.vec)) }
                 ("l_invntt_tomont", 1) => { let mut v = vl(a[0])?; pv::l_invntt_tomont(&mut v); ok(fmt_polys(&v.vec)) }
                 ("k_invntt_tomont", 1) => { let mut v = vk(a[0])?; pv::k_invntt_tomont(&mut v); ok(fmt_polys(&v.vec)) }
-                ("l_pointwise_poly_montgomery", 2) => { let x = poly(a[0])?; let v = vl(a[1])?; let mut r = Polyvecl::default(); pv::l_pointwise_poly_montgomery(&mut r, &x, &v); ok(fmt_polys(&r.vec)) }
-                ("k_pointwise_poly_montgomery", 2) => { let x = poly(a[0])?; let v = vk(a[1])?; let mut r = Polyveck::default(); pv::k_pointwise_poly_montgomery(&mut r, &x, &v); ok(fmt_polys(&r.vec)) }
+                ("l_pointwise_poly_montgomery", 2) => { let x = poly(a[0])?; let v = vl(a[1])?; let mut r = dl(); pv::l_pointwise_poly_montgomery(&mut r, &x, &v); ok(fmt_polys(&r.vec)) }
+                ("k_pointwise_poly_montgomery", 2) => { let x = poly(a[0])?; let v = vk(a[1])?; let mut r = dk(); pv::k_pointwise_poly_montgomery(&mut r, &x, &v); ok(fmt_polys(&r.vec)) }
                 ("l_chknorm", 2) => { let v = vl(a[0])?; let b: i32 = a[1].parse().ok()?; ok(pv::l_chknorm(&v, b).to_string()) }
                 ("k_chknorm", 2) => { let v = vk(a[0])?; let b: i32 = a[1].parse().ok()?; ok(pv::k_chknorm(&v, b).to_string()) }
-                ("k_power2round", 1) => { let mut v1 = vk(a[0])?; let mut v0 = Polyveck::default(); pv::k_power2round(&mut v1, &mut v0); ok(format!("{} {}", fmt_polys(&v1.vec), fmt_polys(&v0.vec))) }
-                ("k_decompose", 1) => { let mut v1 = vk(a[0])?; let mut v0 = Polyveck::default(); pv::k_decompose(&mut v1, &mut v0); ok(format!("{} {}", fmt_polys(&v1.vec), fmt_polys(&v0.vec))) }
-                ("k_make_hint", 2) => { let v0 = vk(a[0])?; let v1 = vk(a[1])?; let mut h = Polyveck::default(); let s = pv::k_make_hint(&mut h, &v0, &v1); ok(format!("{} {}", fmt_polys(&h.vec), s)) }
+                ("k_power2round", 1) => { let mut v1 = vk(a[0])?; let mut v0 = dk(); pv::k_power2round(&mut v1, &mut v0); ok(format!("{} {}", fmt_polys(&v1.vec), fmt_polys(&v0.vec))) }
+                ("k_decompose", 1) => { let mut v1 = vk(a[0])?; let mut v0 = dk(); pv::k_decompose(&mut v1, &mut v0); ok(format!("{} {}", fmt_polys(&v1.vec), fmt_polys(&v0.vec))) }
+                ("k_make_hint", 2) => { let v0 = vk(a[0])?; let v1 = vk(a[1])?; let mut h = dk(); let s = pv::k_make_hint(&mut h, &v0, &v1); ok(format!("{} {}", fmt_polys(&h.vec), s)) }
                 ("k_use_hint", 2) => { let mut x = vk(a[0])?; let h = vk(a[1])?; pv::k_use_hint(&mut x, &h); ok(fmt_polys(&x.vec)) }
                 ("k_pack_w1", 1) => { let v = vk(a[0])?; let mut r = vec![0xA5u8; K * pp::POLYW1_PACKEDBYTES]; pv::k_pack_w1(&mut r, &v); ok(hex(&r)) }
                 _ => None,
@@ -98,10 +101,12 @@ macro_rules! pack_set {
                 let v = polys(s)?; if v.len() != L { return None; }
                 let mut r = Polyvecl::default(); for i in 0..L { r.vec[i] = v[i]; } Some(r)
             }
+            fn dk() -> Polyveck { let mut r = Polyveck::default(); for p in r.vec.iter_mut() { *p = dirty_poly(); } r }
+            fn dl() -> Polyvecl { let mut r = Polyvecl::default(); for p in r.vec.iter_mut() { *p = dirty_poly(); } r }
             match (f, a.len()) {
                 ("pack_pk", 2) => { let rho = unhex(a[0])?; let t1 = vk(a[1])?; let mut out = vec![0xA5u8; pp::PUBLICKEYBYTES]; pk::pack_pk(&mut out, &rho, &t1); ok(hex(&out)) }
                 ("unpack_pk", 1) => {
-                    let b = unhex(a[0])?; let mut rho = [0u8; 32]; let mut t1 = Polyveck::default();
+                    let b = unhex(a[0])?; let mut rho = [0u8; 32]; let mut t1 = dk();
                     pk::unpack_pk(&mut rho, &mut t1, &b); ok(format!("{} {}", hex(&rho), fmt_polys(&t1.vec)))
                 }
                 ("pack_sk", 6) => {
@@ -113,7 +118,7 @@ macro_rules! pack_set {
                 ("unpack_sk", 1) => {
                     let b = unhex(a[0])?;
                     let mut rho = [0u8; 32]; let mut tr = [0u8; $trbytes]; let mut key = [0u8; 32];
-                    let mut t0 = Polyveck::default(); let mut s1 = Polyvecl::default(); let mut s2 = Polyveck::default();
+                    let mut t0 = dk(); let mut s1 = dl(); let mut s2 = dk();
                     pk::unpack_sk(&mut rho, &mut tr, &mut key, &mut t0, &mut s1, &mut s2, &b);
                     ok(format!("{} {} {} {} {} {}", hex(&rho), hex(&tr), hex(&key), fmt_polys(&t0.vec), fmt_polys(&s1.vec), fmt_polys(&s2.vec)))
                 }
@@ -124,7 +129,7 @@ macro_rules! pack_set {
                 }
                 ("unpack_sig", 1) => {
                     let b = unhex(a[0])?;
-                    let mut c = [0u8; $cbytes]; let mut z = Polyvecl::default(); let mut h = Polyveck::default();
+                    let mut c = [0u8; $cbytes]; let mut z = dl(); let mut h = Polyveck::default();
                     let r = pk::unpack_sig(&mut c, &mut z, &mut h, &b);
                     if r { ok(format!("true {} {} {}", hex(&c), fmt_polys(&z.vec), fmt_polys(&h.vec))) } else { ok("false".to_string()) }
                 }
